@@ -45,7 +45,7 @@ def _case(draw, focus, tier="quick"):
     labs = []
     for i in range(n):
         kind = draw(st.sampled_from(["plate", "trough"])) if i == 0 else draw(st.sampled_from(["plate", "plate", "trough"]))
-        regime = "roomy" if scenario == "roomy" else "tight"
+        regime = "roomy" if scenario == "roomy" else draw(st.sampled_from(["tight", "tight", "tight", "large"]))
         filled = None
         if scenario == "supply" and i == 0:
             kind, regime, filled = "trough", "roomy", True  # a well-filled supply trough next to tight labware
